@@ -26,6 +26,8 @@ NEIGHBOURS = [{"from": "C11", "limit": 400, "why": "the in-progress marks are re
 
 def cases(tier, rng):
     thorough = tier == "thorough"
+    for c in directed.contracts_on_bound_methods_cases():
+        yield "directed-contracts-on-bound-methods", c
     for c in directed.constructor_calls_back_cases():
         yield "directed-constructor-calls-back", c
     for c in directed.contract_calls_same_method_of_fresh_object_cases():
